@@ -106,6 +106,11 @@ def make_symbolic(I, sh, name):
                 fields[fn] = make_symbolic(I, fs, '%s_%s' % (name, fn))
             return I.alloc(ObjCell(cls, fields))
         return SymObj(I.fresh_const(name, ObjS), cls)
+    if k == 'flagset':
+        names = sorted(kw['flags'])
+        return SymFlags(tuple(kw['flags'][n] for n in names), tuple(z3.Bool('%s_%s' % (name, n)) for n in names))
+    if k == 'raiser':
+        return RaiserVal()
     if k == 'new':
         return I.alloc(ObjCell(kw['cls'], {}))
     if k == 'dict':
